@@ -224,8 +224,10 @@ def check(pid, tier, seed):
             broken_ties.append('translator:%s: %s' % (f, why))
 
     # 2. proof obligations
-    targets = ['BddVerif.Props.' + pid, 'BddVerif.Audit.' + pid, 'drv_' + pid.lower()]
-    ok_build, out_build = lake_build(targets)
+    # proof obligations and the driver are built separately: a broken obligation must not stop
+    # the correspondence from running (the search for a failing input needs the driver)
+    ok_build, out_build = lake_build(['BddVerif.Props.' + pid, 'BddVerif.Audit.' + pid])
+    ok_drv, out_drv = lake_build(['drv_' + pid.lower()])
     axioms, audit_err = ({}, 'build failed') if not ok_build else audit(pid, theorems)
     discharged = 0
     for th in theorems:
@@ -252,11 +254,11 @@ def check(pid, tier, seed):
     lines, verdicts = [], []
     stats = collections.Counter(); tags = collections.Counter(); fails = []; dis = []; bad = []; n_nontrivial = 0
     case_file = os.path.join(WORK, '%s.%s.cases' % (pid, tier))
-    driver_ok = os.path.exists(os.path.join(LEAN, '.lake', 'build', 'bin', 'drv_' + pid.lower())) and ok_build
+    driver_ok = os.path.exists(os.path.join(LEAN, '.lake', 'build', 'bin', 'drv_' + pid.lower())) and ok_drv
     if not ok_cargo:
         broken_ties.append('harness does not build against the current /repo: ' + out_cargo[-600:])
     elif not driver_ok:
-        broken_ties.append('driver:drv_%s does not build: %s' % (pid.lower(), out_build[-600:]))
+        broken_ties.append('driver:drv_%s does not build: %s' % (pid.lower(), out_drv[-600:]))
     else:
         ok_gen, out_gen, hang = generate(pid, tier, seed, case_file)
         if not ok_gen and not hang:
